@@ -70,6 +70,11 @@ fn cfg_json(c: &Cfg) -> Value {
 pub fn sanitizer_child() -> i32 {
     let big = std::env::args().any(|a| a == "--big");
     let tiny = std::env::args().any(|a| a == "--tiny");
+    if std::env::args().any(|a| a == "--none") {
+        // used by MANIFEST.setup_cmd to pre-build the interpreter-side artefacts
+        println!("SANITIZER-SUMMARY {{\"configurations\":0}}");
+        return 0;
+    }
     let mut bad = 0usize;
     let mut cfgs = Vec::new();
     let sizes: &[usize] = if big { &[0, 1, 2, 3, 8, 17, 64, 257] } else if tiny { &[0, 2, 3] } else { &[0, 1, 2, 3, 5] };
